@@ -79,12 +79,14 @@ CHECKS.update({
 
 CHECKS.update({
     "C01": dict(
-        technique="static analysis: sibling agreement of frame pop sites, match-arm call-graph reachability for coercions, emit/handle pairing between compiler and VM, type walk of the property container, opcode table coverage, operand-role signatures of sibling arms, in-place copy direction test, placeholder-container coverage at context pop, receiver-protocol agreement of direction siblings",
-        text="Decides nine structural necessary conditions of conformance (not the value of any operator): trampoline frame pop "
+        technique="static analysis: sibling agreement of frame pop sites, match-arm call-graph reachability for coercions, emit/handle pairing between compiler and VM, type walk of the property container, opcode table coverage, operand-role signatures of sibling arms, in-place copy direction test, placeholder-container coverage at context pop, receiver-protocol agreement of direction siblings, loop-scoped emission rule for switch tests, must-pass-through (loop-header waypoint) for per-iteration copies, value-origin rule for register numbers, who-may-call for unstable sorts, units check (bytes vs characters) over value origins in string natives, lastIndex sibling rule",
+        text="Decides fifteen structural necessary conditions of conformance (not the value of any operator): trampoline frame pop "
              "sites restore the same VM fields; operator arms convert register operands through the hook-aware coercion; "
              "break/continue/return pop block scopes on exactly one side; the own-property container is insertion ordered; "
              "every opcode is emitted, handled and (for jumps) patched, and no pending jump placeholder is dropped with its context; plain/computed sibling arms agree on operand roles; a hand-written "
-             "copy inside one vector is dominated by a direction test; natives that differ only in direction read the receiver alike. Today's deviations are genuine and listed with failing "
+             "copy inside one vector is dominated by a direction test; natives that differ only in direction read the receiver alike; the default clause of a switch is jumped to only after all case tests; "
+             "for(let) copies the loop variables back on every path to the back jump; the VM addresses registers only through operands; script values are sorted stably; "
+             "string natives never mix UTF-8 byte quantities with character positions; RegExp natives that run the matcher keep lastIndex. Today's deviations are genuine and listed with failing "
              "programs; the frame-restore defect was repaired (fix: commit).",
         ref="4/C01"),
     "C08": dict(
@@ -110,7 +112,7 @@ CHECKS.update({
         text="Turns every unsafe operation and ordering assumption of the collector into an obligation and discharges it "
              "structurally: handle dereferences dominated by Weak::upgrade, bitmap indices provably in range (with "
              "CHUNK_CAPACITY tied to the bitmap width), raw chunk-pointer offsets bound-checked, chunks never reallocating, "
-             "sweep only after mark, pooled slots never rooted, no truncated quotient bounding a word counter. Four obligations fail on today's tree (borrow after heap drop, "
+             "sweep only after mark, pooled slots never rooted, no truncated quotient bounding a word counter, recycled root buffers enter the guard pool empty. Four obligations fail on today's tree (borrow after heap drop, "
              "missing handle identity check); both are genuine, reproduced and listed. It does not decide that live == reachable.",
         ref="4/C13"),
 })
